@@ -713,6 +713,8 @@ def check_C16(tier, seed):
     for r in (127, 128, 254, 255):        # the extreme round counts (u8)
         corpora.stuck_run_cases(S, rng, (2,), r)
     corpora.zero_reading_cases(S, rng)
+    # the timer closure fails inside a collection and the caller recovers: no half is owed after the unwound call
+    corpora.timer_fault_cases(S, rng)
     S.case("JitterRng::new(): a new generator owes no half", [{"op": "jit_std_new"}, {"op": "jit_std_new"}])
     S.case("a by-value duplicate (if JitterRng over a fn timer is Copy) owns no half", [{"op": "by_value_copy"}])
     rc = trace_check("C16", tier, seed, S, "Trace_Jitter.tla", "Trace_Jitter.cfg", weight=jit_weight,
